@@ -113,6 +113,10 @@ _add("ExpectedModelChangeMaximization", "ExpectedModelChangeMaximization", {}, [
 _add("ExpectedModelOutputChange", "ExpectedModelOutputChange", {}, ["nic"], task="reg", heavy=True)
 _add("ExpectedModelVarianceReduction", "ExpectedModelVarianceReduction", {}, ["nic"], task="reg", heavy=True)
 _add("KLDivergenceMaximization", "KLDivergenceMaximization", {}, ["nic"], task="reg", heavy=True)
+# Monte-Carlo integration draws target values through the regressor's sample_y: seed plumbing matters
+_add("KLDivergenceMaximization:mc", "KLDivergenceMaximization", {"integration_dict_cross_entropy": {"method": "monte_carlo", "n_integration_samples": 4}, "integration_dict_target_val": {"method": "monte_carlo", "n_integration_samples": 3}}, ["nic"], task="reg", heavy=True)
+_add("ExpectedModelOutputChange:mc", "ExpectedModelOutputChange", {"integration_dict": {"method": "monte_carlo", "n_integration_samples": 4}}, ["nic"], task="reg", heavy=True)
+_add("ExpectedModelVarianceReduction:mc", "ExpectedModelVarianceReduction", {"integration_dict": {"method": "monte_carlo", "n_integration_samples": 4}}, ["nic"], task="reg", heavy=True)
 _add("GreedySamplingX", "GreedySamplingX", {}, task="reg")
 _add("GreedySamplingX:metric", "GreedySamplingX", {"metric": "manhattan"}, task="reg")
 _add("GreedySamplingTarget", "GreedySamplingTarget", {}, ["lin", "nic"], task="reg")
